@@ -88,9 +88,8 @@ size_t gp_bytes_find_last(
             position = (size_t)(data - haystack);
             break;
         }
-        data--;
-        const char* haystack_end = haystack + haystack_length;
-        to_be_searched = haystack_length - (size_t)(haystack_end - data);
+        // gp_memchr_r() starts looking from data - 1, don't skip it.
+        to_be_searched = (size_t)(data - haystack);
     }
     return position;
 }
